@@ -359,6 +359,20 @@ def _more(name):
 
 
 
+def string_annotation_is_evaluated_each_time(ctx):
+    """C04: what a string annotation means is worked out in the globals of the function that carries it on every
+    normalisation - the same text in another function is another type, whatever was normalised before (the signature
+    of a callable argument is normalised on every call that tests it)."""
+    r10_spellings_normalise_identically(ctx, only="string-context")
+
+
+def union_members_are_normalised(ctx):
+    """C13: the members of a union, however the union is spelled, are normalised like a parameter's whole annotation
+    (bare `type`, `Any`, `None`, a string): a member left raw matches nothing, so the method is skipped for values of
+    that arm while the other arms still match."""
+    r10_spellings_normalise_identically(ctx, only="union-members")
+
+
 def _normaliser_instance_names(repo):
     """module-level names bound to an instance of the normaliser class, with the modules that see them"""
     nz = A.normalizer(repo)
@@ -485,7 +499,7 @@ RULES = [
 ]
 
 
-def r10_spellings_normalise_identically(ctx):
+def r10_spellings_normalise_identically(ctx, only=None):
     """Interpret the normaliser's `__call__` on the different spellings of one annotation: every spelling of
     `int | str` (PEP 604, typing.Union, tuple, string, inside Annotated) gives the same normal form, and so does
     every spelling of "anything" and of "any class"."""
@@ -640,6 +654,10 @@ def r10_spellings_normalise_identically(ctx):
     if hasattr(types, "UnionType"):
         groups["three members, each to be normalised"] += [("int | str | object", int | str | object), ("'object | int | str'", "object | int | str")]
     for what, spellings in groups.items():
+        if only == "string-context":
+            break
+        if only == "union-members" and not what.startswith(("a member that needs", "three members", "int or None")):
+            continue
         results = [(label, norm(t)) for label, t in spellings]
         ref = expected[what]
         diff = [(label, r) for label, r in results if r != ref or type(r) is not type(ref)]
@@ -652,6 +670,8 @@ def r10_spellings_normalise_identically(ctx):
             (f"{diff[0][0]} normalises to {diff[0][1]!r} instead of {ref!r}: the same annotation written another way registers another signature (or one nothing matches)" if diff else ""),
         )
 
+    if only == "union-members":
+        return
     # a string annotation means what it means in the globals of the function it annotates
     ns2 = dict(ns, T=str)
     f1 = Record(__globals__=dict(ns, T=int), __module__="m", __name__="f", __qualname__="f")
